@@ -217,8 +217,6 @@ def validatorRestore (v : Value) (bt scale offset : Nat) : Value :=
 
 /-! ### generated typed accessors (profile/mesgdef) -/
 
-def isInf (x : Nat) : Bool := match decode x with | .inf _ => true | _ => false
-
 /-- `XxxScaled()` of a scalar field: the invalid sentinel maps to the float64 invalid pattern, anything else to
 `float64(raw)/scale - offset` (no unit short-cut: the accessor exists only for non-unit pairs) -/
 def getScaled (ty : IntTy) (invalid raw scale offset : Nat) : Nat :=
